@@ -5,6 +5,7 @@ Lemmas*.lean.  `C : Curve` is the foreign secp256k1 code (btcec.ParsePubKey + Se
 parameter; every theorem holds for every `C` (hypotheses on `C` are stated where needed).
 -/
 import BV.C15.Lemmas
+import BV.C15.LemmasSize
 import BV.Generated.C15
 namespace BV.C15
 open Spec
@@ -21,6 +22,25 @@ theorem vlq_size (n : Nat) : (putVLQ n).length = serializeSizeVLQ n := Lemmas.pu
 /-- Round trip for every `uint64`, with arbitrary trailing data; the bytes-read count is the size. -/
 theorem vlq_roundtrip (n : Nat) (hn : n < 2 ^ 64) (rest : List UInt8) :
     deserializeVLQ (putVLQ n ++ rest) = (n, serializeSizeVLQ n) := Lemmas.deserialize_putVLQ n hn rest
+
+/-- The size calculator is monotone: a larger value never gets a shorter encoding. -/
+theorem vlq_size_monotone (n m : Nat) (h : n ≤ m) : serializeSizeVLQ n ≤ serializeSizeVLQ m :=
+  LemmasSize.serializeSizeVLQ_mono m n h
+
+/-- Closed form of the size calculator, for every natural number and every length: a value needs at most
+`k+1` bytes iff it is at most `vlqMax k` (0x7f, 0x407f, 0x20407f, 0x1020407f, …) — hence, with `vlq_size`,
+the encoded length of every value is determined by these thresholds alone. -/
+theorem vlq_size_closed_form (n k : Nat) : serializeSizeVLQ n ≤ k + 1 ↔ n ≤ LemmasSize.vlqMax k :=
+  LemmasSize.size_le_iff n k
+
+/-- Both sides of every threshold: `vlqMax k` takes `k+1` bytes, `vlqMax k + 1` takes `k+2`. -/
+theorem vlq_size_boundaries (k : Nat) :
+    serializeSizeVLQ (LemmasSize.vlqMax k) = k + 1 ∧ serializeSizeVLQ (LemmasSize.vlqMax k + 1) = k + 2 :=
+  LemmasSize.size_vlqMax k
+
+/-- the thresholds are the documented ones (compress.go's table of example encodings) -/
+example : LemmasSize.vlqMax 0 = 127 ∧ LemmasSize.vlqMax 1 = 16511 ∧ LemmasSize.vlqMax 2 = 2113663 ∧
+    LemmasSize.vlqMax 5 = 0x4081020407f := by decide
 
 /-- A `uint64` takes at most ten bytes. -/
 theorem vlq_size_le_ten (n : Nat) (hn : n < 2 ^ 64) : serializeSizeVLQ n ≤ 10 := Lemmas.size_le_ten n hn
